@@ -49,6 +49,9 @@ CFG = {
         # the other server exit: consume_buffers pairs ids with values for every completion order
         "Leptos.Transfer.C12_consume_pairs",
         "Leptos.Transfer.consumeRun_view",
+        # carriers created after hydration / on a CSR page read nothing that was transferred
+        "Leptos.Transfer.C12_post_hydration_reads_nothing",
+        "Leptos.Transfer.cliRun_bounds",
         # JSON codec end to end
         "Leptos.Transfer.C12_json_string_roundtrip",
         "Leptos.Transfer.jsonStrDecode_encode",
@@ -72,7 +75,9 @@ CFG = {
             "order; the server exit is the pending_data() stream (3 in 4) or consume_buffers() (1 in 4), both polled by hand; every session ends with "
             "`hydrate`: the same carriers are created again, in the same order, on a client whose shared context serves ids from the real "
             "HydrateSharedContext and read_data from what the browser twin evaluated out of the real script text (or from the consume_buffers pairs) "
-            "-- oracle: every client carrier starts with the server's value and no client-side load runs; (b) single-literal sessions `lit d|e`, `jsonenc`; "
+            "-- oracle: every client carrier starts with the server's value and no client-side load runs; then 0-3 further carriers are created on the client at "
+            "another moment (`client post`: on the hydrated page after hydration_complete(), its data still readable; `client csr`: under the real CsrSharedContext), half of "
+            "them with a (kind, value) of the page -- oracle: they look up no id that has transferred data, start empty and run their own loader; (b) single-literal sessions `lit d|e`, `jsonenc`; "
             "(c) id programs over {next_id, set_is_hydrating}: exhaustive up to length 5 for both constructors plus random longer ones; (d) browser-twin-only "
             "ops (`js`, `tok`). Strings: atoms < > / ! - \" ' \\ NUL digits U+2028 U+2029 U+FEFF </script <!-- <script --> \\u003c ... and arbitrary code "
             "points of the documented alphabet; 1 value in 8 is empty. distinct = distinct op lines of the case; non-trivial = a case with a tag beyond the bare op kinds.",
@@ -96,6 +101,7 @@ CFG = {
         "SsrSharedContext::{next_id, write_async, register_error, seal_errors, set_incomplete_chunk, pending_data}, AsyncDataStream::poll_next, ResolvedData::write_to_buf",
         "HydrateSharedContext::next_id (native build of the browser feature)",
         "SsrSharedContext::consume_buffers; leptos_server IntoEncodedString/FromEncodedStr (String identity, Vec<u8> base64)",
+        "CsrSharedContext (real, behind a recording wrapper); carriers created after hydration_complete(): ids continue the hydration counter",
         "the client-side initial_value path of ArcResource/Resource/ArcOnceResource/OnceResource and SharedValue::new_with_encoding, observed on the real types (status ok/wrong/none + load count), predicted by the model from the transferred map",
         "integrations/utils build_response: <script>{chunk}</script> (no nonce)",
         "ECMAScript StringLiteral evaluation; array/assignment/push statements; WHATWG tokenizer script-data states",
